@@ -320,7 +320,8 @@ pub fn cli_images(args: &[String]) -> i32 {
             let b2 = crate::pma::build_ordered(&w.spec, &order, || {});
             let same = match (&a, &b2) {
                 (Ok(x), Ok(y)) => x.serialize() == y.serialize() && x.same(&**y),
-                (Err(x), Err(y)) => x == y,
+                // both fail: fine (messages may name a pattern or an index)
+                (Err(_), Err(_)) => true,
                 _ => false,
             };
             if !same {
@@ -367,7 +368,7 @@ pub fn replay_perm(doc: &serde_json::Value) -> i32 {
     let b = crate::pma::build_ordered(&spec, &order, || {});
     let same = match (&a, &b) {
         (Ok(x), Ok(y)) => x.serialize() == y.serialize() && x.same(&**y),
-        (Err(x), Err(y)) => x == y,
+        (Err(_), Err(_)) => true,
         _ => false,
     };
     if same {
